@@ -109,6 +109,9 @@ func cmdUnits(args []string) {
 			}
 			if *verbose || o.Status != "discharged" {
 				fmt.Printf("   %s %-10s %s  [%s %s %.2fs %dB] %s\n", mark, o.Status, o.Name, o.Res.Solver, o.Res.Status, o.Res.Time, o.QuerySz, o.Pos)
+				if o.Diag != "" {
+					fmt.Printf("      diag:%s\n", o.Diag)
+				}
 				if o.Status == "failed" && *verbose {
 					fmt.Printf("      model: %s\n", strings.Join(strings.Fields(modelOf(o.Res.Output)), " "))
 				}
